@@ -52,12 +52,144 @@ func (*DataProcessor).Process
   modifies *
   count reads := RLock
   before processItem the-channel-is-read-again-under-the-lock-before-every-receive: $reads > atloop(1, $reads)
+  before processItem a-row-taken-from-the-input-is-processed-as-it-is: $selected == 0 && $recvok && $arg1 == data
+  atreturn the-consumer-ends-only-when-stopped-or-the-input-is-closed-never-because-of-a-row: currentDataChan == nil || $selected == 1 || ($selected == 0 && !$recvok)
+
+// a result batch is booked exactly once, and on the output side: sent, or dropped as output; the input-side books (rows
+// emitted, rows dropped before processing) are not touched by what happens to a result
+extern (*Stream).logDroppedDataWithThrottling
+  props C19 C05
+  modifies s.lastDropLogTime, s.dropLogCount
+
+func (*Stream).handleResultChannelBackpressure
+  props C19 C05
+  modifies s.mOutput.val, s.mOutputDropped.val, s.lastDropLogTime, s.dropLogCount
+  ensures booked-once-as-sent-or-as-dropped-output: s.mOutput != s.mOutputDropped ==> (s.mOutput.val - old(s.mOutput.val)) + (s.mOutputDropped.val - old(s.mOutputDropped.val)) == 1 && s.mOutput.val >= old(s.mOutput.val) && s.mOutputDropped.val >= old(s.mOutputDropped.val)
+
+func (*Stream).sendResultNonBlocking
+  props C19 C05
+  modifies s.mOutput.val, s.mOutputDropped.val, s.lastDropLogTime, s.dropLogCount
+  ensures booked-once-as-sent-or-as-dropped-output: s.mOutput != s.mOutputDropped ==> (s.mOutput.val - old(s.mOutput.val)) + (s.mOutputDropped.val - old(s.mOutputDropped.val)) == 1 && s.mOutput.val >= old(s.mOutput.val) && s.mOutputDropped.val >= old(s.mOutputDropped.val)
+
+// the WHERE text goes through the three rewritings in a chain: each step starts from what the previous step produced (or
+// from the text it was given when that step did not apply or failed)
+func (*Stream).preprocessFilterCondition
+  props C13 C06 C05 C12 C14 C15 C16 C19 C20
+  modifies *
+  observe hasTick := ContainsBacktickIdentifiers
+  observe tick := PreprocessBacktickIdentifiers
+  observe tickErr := PreprocessBacktickIdentifiers#1
+  observe hasLike := ContainsLikeOperator
+  observe like := PreprocessLikeExpression
+  observe likeErr := PreprocessLikeExpression#1
+  observe hasNull := ContainsIsNullOperator
+  observe isnull := PreprocessIsNullExpression
+  observe nullErr := PreprocessIsNullExpression#1
+  before PreprocessBacktickIdentifiers identifier-rewriting-starts-from-the-condition-given: $arg1 == conditionStr
+  before ContainsLikeOperator like-rewriting-continues-from-the-identifier-rewriting: $arg1 == ite($hasTick && $tickErr == nil, $tick, conditionStr)
+  before PreprocessLikeExpression like-rewriting-continues-from-the-identifier-rewriting: $arg1 == ite($hasTick && $tickErr == nil, $tick, conditionStr)
+  before ContainsIsNullOperator is-null-rewriting-continues-from-the-like-rewriting: $arg1 == ite($hasLike && $likeErr == nil, $like, ite($hasTick && $tickErr == nil, $tick, conditionStr))
+  before PreprocessIsNullExpression is-null-rewriting-continues-from-the-like-rewriting: $arg1 == ite($hasLike && $likeErr == nil, $like, ite($hasTick && $tickErr == nil, $tick, conditionStr))
+  atreturn the-result-is-the-text-after-all-three-rewritings: result == ite($hasNull && $nullErr == nil, $isnull, ite($hasLike && $likeErr == nil, $like, ite($hasTick && $tickErr == nil, $tick, conditionStr)))
+
+// the argument of an aggregate is evaluated per row from that aggregate's own expression text on that very row, whichever
+// engine takes it (nested paths and CASE: the custom engine; the rest: the bridge after IS NULL / LIKE rewriting, the custom
+// engine when the bridge fails); nothing evaluated for another aggregate or another row is reused
+func (*DataProcessor).evaluateExpressionForAggregation
+  props C03 C07 C01 C05 C08 C09 C10 C12 C15 C17 C20
+  modifies *
+  observe nested := evaluateNestedFieldExpression
+  observe nestedErr := evaluateNestedFieldExpression#1
+  observe cased := evaluateCaseExpression
+  observe casedErr := evaluateCaseExpression#1
+  observe hasNull := ContainsIsNullOperator
+  observe isnull := PreprocessIsNullExpression
+  observe nullErr := PreprocessIsNullExpression#1
+  observe hasLike := ContainsLikeOperator
+  observe like := PreprocessLikeExpression
+  observe likeErr := PreprocessLikeExpression#1
+  observe bval := EvaluateExpression
+  observe berr := EvaluateExpression#1
+  observe fval := fallbackExpressionEvaluation
+  observe ferr := fallbackExpressionEvaluation#1
+  before evaluateNestedFieldExpression this-aggregates-own-expression-on-this-row: $arg1 == fieldExpr.Expression && $arg2 == data
+  before evaluateCaseExpression this-aggregates-own-expression-on-this-row: $arg1 == fieldExpr.Expression && $arg2 == data
+  before fallbackExpressionEvaluation this-aggregates-own-expression-on-this-row: $arg1 == fieldExpr.Expression && $arg2 == data
+  before ContainsLikeOperator like-rewriting-continues-from-the-is-null-rewriting: $arg1 == ite($hasNull && $nullErr == nil, $isnull, fieldExpr.Expression)
+  before EvaluateExpression the-bridge-gets-this-aggregates-own-rewritten-expression-and-this-row: $arg2 == data && $arg1 == ite($hasLike && $likeErr == nil, $like, ite($hasNull && $nullErr == nil, $isnull, fieldExpr.Expression))
+  atreturn a-nested-path-argument-is-the-custom-engines-answer: strings.Contains(fieldExpr.Expression, ".") ==> result0 == $nested && result1 == $nestedErr
+  atreturn a-case-argument-is-the-custom-engines-answer: !strings.Contains(fieldExpr.Expression, ".") && strings.HasPrefix(upperExpr, SQLKeywordCase) ==> result0 == $cased && result1 == $casedErr
+  atreturn otherwise-the-bridges-answer-or-the-fallbacks: !strings.Contains(fieldExpr.Expression, ".") && !strings.HasPrefix(upperExpr, SQLKeywordCase) ==> ite($berr == nil, result0 == $bval && result1 == nil, result0 == $fval && result1 == $ferr)
+
+func (*DataProcessor).evaluateNestedFieldExpression
+  props C03 C07 C01 C05 C08 C09 C10 C12 C15 C17 C20
+  modifies *
+  observe hasTick := ContainsBacktickIdentifiers
+  observe tick := PreprocessBacktickIdentifiers
+  observe tickErr := PreprocessBacktickIdentifiers#1
+  observe parsed := NewExpression
+  observe perr := NewExpression#1
+  observe cval := EvaluateValueWithNull
+  observe cnull := EvaluateValueWithNull#1
+  observe cerr := EvaluateValueWithNull#2
+  before NewExpression the-text-parsed-is-the-expression-given: $arg0 == ite($hasTick && $tickErr == nil, $tick, expression)
+  before EvaluateValueWithNull what-was-just-parsed-is-evaluated-on-the-row-given: $arg0 == $parsed && $arg1 == dataMap
+  atreturn the-engines-answer-stands-null-included: $perr == nil && $cerr == nil ==> result1 == nil && result0 == ite($cnull, nil, $cval)
+  atreturn a-failure-is-an-error: $perr != nil || $cerr != nil ==> result1 != nil
+
+func (*DataProcessor).evaluateCaseExpression
+  props C03 C07 C01 C05 C08 C09 C10 C12 C15 C17 C20
+  modifies *
+  observe hasTick := ContainsBacktickIdentifiers
+  observe tick := PreprocessBacktickIdentifiers
+  observe tickErr := PreprocessBacktickIdentifiers#1
+  observe parsed := NewExpression
+  observe perr := NewExpression#1
+  observe cval := EvaluateValueWithNull
+  observe cnull := EvaluateValueWithNull#1
+  observe cerr := EvaluateValueWithNull#2
+  before NewExpression the-text-parsed-is-the-expression-given: $arg0 == ite($hasTick && $tickErr == nil, $tick, expression)
+  before EvaluateValueWithNull what-was-just-parsed-is-evaluated-on-the-row-given: $arg0 == $parsed && $arg1 == dataMap
+  atreturn the-engines-answer-stands-null-included: $perr == nil && $cerr == nil ==> result1 == nil && result0 == ite($cnull, nil, $cval)
+  atreturn a-failure-is-an-error: $perr != nil || $cerr != nil ==> result1 != nil
+
+// an aggregate argument the bridge cannot evaluate goes to the custom engine; what that engine answers without an error is
+// the answer, a NULL (flagged or as a nil value) included: a NULL row is fed as NULL, not skipped as a failure
+func (*DataProcessor).fallbackExpressionEvaluation
+  props C03 C01 C05 C07 C08 C09 C10 C12 C15 C17 C20
+  modifies *
+  observe bval := EvaluateExpression
+  observe berr := EvaluateExpression#1
+  observe perr := NewExpression#1
+  observe cval := EvaluateValueWithNull
+  observe cnull := EvaluateValueWithNull#1
+  observe cerr := EvaluateValueWithNull#2
+  observe hasTick := ContainsBacktickIdentifiers
+  observe tick := PreprocessBacktickIdentifiers
+  observe tickErr := PreprocessBacktickIdentifiers#1
+  observe parsed := NewExpression
+  before EvaluateExpression the-bridge-gets-the-expression-given-and-the-row-given: $arg1 == ite($hasTick && $tickErr == nil, $tick, expression) && $arg2 == dataMap
+  before NewExpression the-text-parsed-is-the-expression-given: $arg0 == ite($hasTick && $tickErr == nil, $tick, expression)
+  before EvaluateValueWithNull what-was-just-parsed-is-evaluated-on-the-row-given: $arg0 == $parsed && $arg1 == dataMap
+  atreturn the-bridges-answer-stands: $berr == nil ==> result0 == $bval && result1 == nil
+  atreturn the-custom-engines-answer-stands-null-included: $berr != nil && $perr == nil && $cerr == nil ==> result1 == nil && result0 == ite($cnull, nil, $cval)
+  atreturn only-a-failure-of-both-engines-is-an-error: $berr != nil && ($perr != nil || $cerr != nil) ==> result1 != nil
 
 func (*DataProcessor).applyHavingWithCondition
-  props C07 C01 C03 C05 C08 C09 C10 C12 C15 C17 C20
+  props C07 C01 C03 C05 C08 C09 C10 C12 C15 C17 C20 C13
   modifies *
   count tested := Evaluate
   observe cerr := NewExprCondition#1
+  observe hasLike := ContainsLikeOperator
+  observe like := PreprocessLikeExpression
+  observe likeErr := PreprocessLikeExpression#1
+  observe hasNull := ContainsIsNullOperator
+  observe isnull := PreprocessIsNullExpression
+  observe nullErr := PreprocessIsNullExpression#1
+  before PreprocessLikeExpression [C13] the-like-rewriting-starts-from-the-having-text: $arg1 == dp.stream.config.Having
+  before ContainsIsNullOperator [C13] the-is-null-rewriting-continues-from-the-like-rewriting: $arg1 == ite($hasLike && $likeErr == nil, $like, old(dp.stream.config.Having))
+  before PreprocessIsNullExpression [C13] the-is-null-rewriting-continues-from-the-like-rewriting: $arg1 == ite($hasLike && $likeErr == nil, $like, old(dp.stream.config.Having))
+  before NewExprCondition [C13] the-text-compiled-is-the-having-text-after-both-rewritings: $arg0 == ite($hasNull && $nullErr == nil, $isnull, ite($hasLike && $likeErr == nil, $like, old(dp.stream.config.Having)))
   ensures every-group-of-the-batch-is-tested-against-having: $cerr == nil ==> $tested == len(results)
   ensures an-unusable-having-filters-nothing: $cerr != nil ==> seqeq(result, results)
   loop 1 invariant $tested == $i && $cerr == nil
@@ -128,6 +260,28 @@ extern encodeKey
   props C16
   option pure
 
+pred isSignedKey(v) := hasType(v, int) || hasType(v, int64) || hasType(v, int32)
+pred isUnsignedKey(v) := hasType(v, uint) || hasType(v, uint64) || hasType(v, uint32)
+pred isFloatKey(v) := hasType(v, float64) || hasType(v, float32)
+
+// floats of either width have one float form, so that one number is one key whatever type carries it (integers are
+// written exactly by encodeOne before this is asked)
+func numericKeyFloat
+  props C16
+  ensures floats-of-either-width-are-numbers: isFloatKey(v) ==> result1 && result0 == realval(v)
+  ensures an-integer-it-accepts-keeps-its-value: (isSignedKey(v) || isUnsignedKey(v)) && result1 ==> result0 == float64(intval(v))
+  ensures nothing-else-is-a-number: !(isFloatKey(v) || isSignedKey(v) || isUnsignedKey(v)) ==> !result1
+
+// key encoding of one value: NULL, numbers (integers exactly, floats of either width through one float form), strings
+// (escaped) and booleans each under their own tag
+func encodeOne
+  props C16
+  option assumed_frame
+  ensures null-has-its-own-key: v == nil ==> result == "<nil>"
+  ensures signed-integers-are-written-exactly: isSignedKey(v) ==> result == "n:" + strconv.FormatInt(intval(v), 10)
+  ensures unsigned-integers-are-written-exactly: isUnsignedKey(v) ==> result == "n:" + strconv.FormatUint(intval(v), 10)
+  ensures floats-of-either-width-share-the-number-tag-and-one-spelling: isFloatKey(v) ==> result == "n:" + strconv.FormatFloat(realval(v), 102, -1, 64)
+
 func (*MemoryTableSource).encodeRow
   props C16
   ensures key-values-in-indexed-order: len(result) == len(m.keyFields) && forall(i, 0, len(m.keyFields), result[i] == row[m.keyFields[i]])
@@ -144,9 +298,9 @@ func (*MemoryTableSource).Upsert
   modifies mapof(m.index)
   observe key := encodeKey
   observe keyvals := encodeRow
-  ensures row-visible-under-its-key: dom(m.index, $key) && m.index[$key] == row
-  ensures other-rows-untouched: forallv(k, "", k != $key ==> (dom(m.index, k) <==> old(dom(m.index, k))) && m.index[k] == old(m.index[k]))
-  ensures key-values-are-the-rows-key-fields: len($keyvals) == len(m.keyFields) && forall(i, 0, len(m.keyFields), $keyvals[i] == row[m.keyFields[i]])
+  atreturn row-visible-under-its-key: dom(m.index, $key) && m.index[$key] == row
+  atreturn other-rows-untouched: forallv(k, "", k != $key ==> (dom(m.index, k) <==> old(dom(m.index, k))) && m.index[k] == old(m.index[k]))
+  atreturn key-values-are-the-rows-key-fields: len($keyvals) == len(m.keyFields) && forall(i, 0, len(m.keyFields), $keyvals[i] == row[m.keyFields[i]])
 
 func (*MemoryTableSource).Delete
   props C16
@@ -162,6 +316,14 @@ func NewMemoryTableSource
 func (*tableStore).get
   props C16
   ensures true
+
+// an upsert replaces the stored row by the row given, whole: columns the new row lacks do not survive
+func (*Stream).UpsertTableRow
+  props C16 C05 C06 C12 C13 C14 C15 C19 C20
+  modifies *
+  count stored := Upsert
+  before Upsert what-gets-stored-has-exactly-the-columns-and-values-of-the-row-given: forallv(k, "", (dom($arg1, k) <==> dom(row, k)) && (dom(row, k) ==> $arg1[k] == row[k]))
+  atreturn exactly-one-store-on-success: result == nil ==> $stored == 1
 
 func (*Stream).JoinKeyFields
   props C16 C05 C06 C12 C13 C14 C15 C19 C20
@@ -331,7 +493,7 @@ recfunc qst2((s Str) (n Int)) Int := (ite (<= n 0) 0 (let ((q (@qst2 s (- n 1)))
 recfunc pdepth((s Str) (n Int)) Int := (ite (<= n 0) 0 (let ((d (@pdepth s (- n 1))) (q (@qst2 s (- n 1))) (c (gs.at s (- n 1)))) (ite (not (= q 0)) d (ite (= c 40) (+ d 1) (ite (= c 41) (- d 1) d)))))
 
 func (*Stream).smartSplitArgs
-  props C06 C05
+  props C06 C05 C04 C07 C16 C20
   option safety
   modifies heap(strings.Builder)
   loop 1 invariant 0 <= i && i <= len(argsStr) && (inQuotes <==> quoteChar != 0) && (quoteChar == 0 || quoteChar == 39 || quoteChar == 34)
@@ -510,6 +672,9 @@ func (*analyticFieldEngine).getStateLocked
   ensures a-known-partition-gets-its-own-state-back: fe.af.Over != nil && len(fe.af.Over.PartitionBy) > 0 && old(dom(fe.partitions, partKey)) ==> seqeq(result, old(entryOf(fe, partKey).states))
   ensures a-hit-leaves-the-partition-table-alone: fe.af.Over != nil && len(fe.af.Over.PartitionBy) > 0 && old(dom(fe.partitions, partKey)) ==> mapUnchanged(fe.partitions)
   ensures a-new-partition-is-registered-under-its-own-key-with-the-states-it-returns: fe.af.Over != nil && len(fe.af.Over.PartitionBy) > 0 && !old(dom(fe.partitions, partKey)) && dom(fe.partitions, partKey) ==> fresh(fe.partitions[partKey]) && entryOf(fe, partKey).key == partKey && seqeq(result, entryOf(fe, partKey).states)
+  ensures a-last-result-is-dropped-only-together-with-its-partition: forallv(k, "", old(dom(fe.lastResults, k)) && !dom(fe.lastResults, k) ==> !dom(fe.partitions, k))
+  ensures an-evicted-partition-leaves-no-last-result-behind: forallv(k, "", old(dom(fe.partitions, k)) && !dom(fe.partitions, k) ==> !dom(fe.lastResults, k))
+  ensures no-last-result-is-added-or-changed-here: forallv(k, "", dom(fe.lastResults, k) ==> old(dom(fe.lastResults, k)) && fe.lastResults[k] == old(fe.lastResults[k]))
   ensures other-partitions-keep-their-entry-or-are-evicted-whole: fe.af.Over != nil && len(fe.af.Over.PartitionBy) > 0 ==> forallv(k, "", k != partKey && dom(fe.partitions, k) ==> old(dom(fe.partitions, k)) && fe.partitions[k] == old(fe.partitions[k]))
 @*/
 
